@@ -4,6 +4,7 @@ import (
 	"go/constant"
 	"go/token"
 	"go/types"
+	"strings"
 
 	"golang.org/x/tools/go/ssa"
 
@@ -18,7 +19,7 @@ func init() {
 	core.Register(&core.Check{
 		ID: "C25", Level: "other", Title: "Vote-based approvals fire exactly once at two thirds",
 		Explain: "Template applied to consensus_vote.CheckVotes (vote and ripple routers) and signature_manager.CheckSigns: (a) only current consensus validators may vote: every storage write and every possibly-true return is dominated, under flag-phi feasibility, by the equality of the voter address with AddressFromPubKey(DeserializePublicKey(hex(key))) of a pool entry with Status==ConsensusStatus of the current view; (b) each validator counts once: in the counting loop num++ is dominated per iteration by Status==ConsensusStatus and by presence of that peer's derived address in the vote map, sum++ by Status==ConsensusStatus, and the voter's own +1 and map insertion after the loop are dominated by the 'not yet voted' flag whose only true-definition is dominated by absence of the voter's address in the map; (c) the threshold tree is ≡ ⌈2N/3⌉ over N=sum for all N≥0 and dominates the true return; (d) exactly once: CheckVotes returns false when Status is already set and sets Status=true and stores it before returning true; CheckSigns returns !Status read before setting it. Callers: the voter address passed is the one ValidateOwner accepted. NOT decided: the history statement 'at the first vote that reaches the threshold' (follows from set semantics + the Status flag).",
-		Run: runC25,
+		Run:     runC25,
 	})
 }
 
@@ -88,18 +89,47 @@ func checkVoteFunc(c *core.Ctx, sp voteSpec) {
 	}
 	// derived address of the iterated peer
 	derivedAddr := func(lp eng.MapLoop) func(ssa.Value) bool {
-		return func(v ssa.Value) bool {
-			cl, _ := ir.CallOf(v)
-			if cl == nil || !ir.CalleeIs(cl, afp) {
+		var chain func(v ssa.Value, depth int) bool
+		chain = func(v ssa.Value, depth int) bool {
+			cl, idx := ir.CallOf(v)
+			if cl == nil {
 				// through an address-taken local
 				if al, ok := ir.Strip(v).(*ssa.Alloc); ok {
 					if sv := ir.SingleStore(al); sv != nil {
-						cl, _ = ir.CallOf(sv)
+						cl, idx = ir.CallOf(sv)
 					}
 				}
-				if cl == nil || !ir.CalleeIs(cl, afp) {
+			}
+			if cl == nil {
+				return false
+			}
+			if !ir.CalleeIs(cl, afp) {
+				// a module helper that derives the address from its argument: every error-free return qualifies
+				h := cl.Common().StaticCallee()
+				if depth > 2 || h == nil || len(h.Blocks) == 0 || h.Pkg == nil || h.Pkg.Pkg == nil || !strings.HasPrefix(h.Pkg.Pkg.Path(), ir.Mod) {
 					return false
 				}
+				if idx < 0 {
+					idx = 0
+				}
+				defer ir.BindParams(h, cl.Common().Args)()
+				n := 0
+				for _, b := range h.Blocks {
+					ret, isRet := b.Instrs[len(b.Instrs)-1].(*ssa.Return)
+					if !isRet || idx >= len(ret.Results) {
+						continue
+					}
+					if last := ret.Results[len(ret.Results)-1]; len(ret.Results) > 1 && last.Type().String() == "error" {
+						if k, isK := last.(*ssa.Const); !isK || !k.IsNil() {
+							continue // error return: the caller must not use the address (checked by the err==nil rules)
+						}
+					}
+					if !chain(ret.Results[idx], depth+1) {
+						return false
+					}
+					n++
+				}
+				return n > 0
 			}
 			pk, _ := ir.CallOf(cl.Common().Args[0])
 			if pk == nil || ir.CalleeObj(pk) == nil || ir.CalleeObj(pk).Name() != "DeserializePublicKey" {
@@ -112,6 +142,7 @@ func checkVoteFunc(c *core.Ctx, sp voteSpec) {
 			ex, ok := ir.Strip(hx.Common().Args[0]).(*ssa.Extract)
 			return ok && ex.Tuple == ssa.Value(lp.Next) && ex.Index == 1
 		}
+		return func(v ssa.Value) bool { return chain(v, 0) }
 	}
 	consensusStatus, _ := c.P.Const(pkNM, "ConsensusStatus")
 	statusGuard := eng.NamedGuard{Name: "v.Status == ConsensusStatus", G: func(cd ir.Cond) (bool, bool) {
@@ -168,11 +199,16 @@ func checkVoteFunc(c *core.Ctx, sp voteSpec) {
 	var thr *ssa.BinOp
 	var thrCond ir.Cond
 	nThr := 0
+	thrIfs := map[*ssa.If]bool{} // threshold comparison -> passes on the true edge
 	for _, cd := range ir.Conds(fn) {
-		if b, ok := cd.V.(*ssa.BinOp); ok && b.Op == token.GEQ {
+		// `num >= T` (pass on the true edge) or its complement `num < T` (pass on the false edge)
+		if b, ok := cd.V.(*ssa.BinOp); ok && (b.Op == token.GEQ || b.Op == token.LSS) {
 			if _, err := eng.ExtractExpr(b.Y, func(v ssa.Value) bool { _, isPhi := v.(*ssa.Phi); return isPhi }); err == nil {
 				if _, isConst := b.Y.(*ssa.Const); !isConst {
-					thr, thrCond = b, cd
+					thrIfs[cd.If] = b.Op == token.GEQ
+					if thr == nil || (thr.Op == token.LSS && b.Op == token.GEQ) {
+						thr, thrCond = b, cd
+					}
 					nThr++
 				}
 			}
@@ -183,7 +219,7 @@ func checkVoteFunc(c *core.Ctx, sp voteSpec) {
 		// whole pool, a stored total …): then N is not "the current consensus validators"
 		for _, cd := range ir.Conds(fn) {
 			b, ok := cd.V.(*ssa.BinOp)
-			if !ok || b.Op != token.GEQ {
+			if !ok || (b.Op != token.GEQ && b.Op != token.LSS) {
 				continue
 			}
 			if _, isConst := b.Y.(*ssa.Const); isConst {
@@ -232,8 +268,8 @@ func checkVoteFunc(c *core.Ctx, sp voteSpec) {
 		}
 	}
 	thrGuard := eng.NamedGuard{Name: "num >= ⌈2·sum/3⌉", G: func(cd ir.Cond) (bool, bool) {
-		if cd.If == thrCond.If {
-			return true, true
+		if onTrue, is := thrIfs[cd.If]; is {
+			return true, onTrue
 		}
 		return false, false
 	}}
@@ -377,7 +413,7 @@ func checkVoteFunc(c *core.Ctx, sp voteSpec) {
 	}
 	flagGuard := eng.NamedGuard{Name: "not-yet-voted flag", G: func(cd ir.Cond) (bool, bool) {
 		if cd.If == flagIf {
-			return true, !cd.Neg
+			return true, true // cd.V is the flag itself (negations are folded into the edge index)
 		}
 		return false, false
 	}}
